@@ -193,7 +193,7 @@ def account(ctx, res, props):
             if len(st.setdefault('first_divergences', [])) < 5:
                 st['first_divergences'].append({'item': t['item'], 'first_diverging_step': t['divergence'],
                                                 'coqc_error': t.get('coqc_error')})
-        if t['stats'].get('applies', 0) > 3 and t['stats'].get('elections', 0) > 0:
+        if t.get('model') and t['stats'].get('applies', 0) > 3 and t['stats'].get('elections', 0) > 0:
             st['nontrivial'] += 1
         for k, v in t['kinds'].items():
             kinds[k] = kinds.get(k, 0) + v
